@@ -140,6 +140,28 @@ T.update({
               caught_by={"C20": "C20/*/queue-lost/GET /broker/queue (states with duplicate queue entries added)"}, missed_by={"C20 (before)": "no state had duplicate queue entries"}),
 })
 
+
+T.update({
+ "C02c": dict(breaks=["C02"], summary="SQLiteOrchestrator._atomic_status_transition takes BEGIN IMMEDIATE only for transitions that acquire or override ownership; all others read, validate and write without the write lock (a non-owner's REGISTERED -> CONCURRENCY_CONTROLLED can overwrite a RUNNING written in between).",
+              needs="a poller marking an invocation CONCURRENCY_CONTROLLED from a stale read while another runner claims and starts it (duplicate queue entry, running concurrency with reroute).",
+              caught_by={"C02": "C02/sqlite/illegal-step/transition/*"}, missed_by={}),
+ "C06c": dict(breaks=["C06"], summary="SQLite argument index stores only the declared key_arguments: ARGUMENTS mode on a task that also declares key_arguments never finds a same-arguments invocation.",
+              needs="running concurrency ARGUMENTS on a task with key_arguments, SQLite, two submissions with identical arguments.",
+              caught_by={"C06": "C06/sqlite/two-running/mode=ARGUMENTS/* (key_arguments are now declared in 40 % of the non-KEYS runs and half of the ARGUMENTS-mode submissions repeat an earlier one exactly)"}, missed_by={"C06 (before)": "key_arguments were only declared in KEYS mode and exact repeats of all arguments were rare"}),
+ "C08c": dict(breaks=["C08"], summary="MemBroker.retrieve_invocation becomes check - peek - log - pop instead of one atomic popleft: two retrievers deliver the head twice and lose the next message.",
+              needs="two retrievers inside the peek-to-pop window.",
+              caught_by={"C08": "C08/conc/mem/conservation/duplicated, lost"}, missed_by={}),
+ "C09c": dict(breaks=["C09"], summary="SQLiteBlockingControl.get_blocking_invocations applies LIMIT in SQL and the runnable-status filter afterwards in Python: non-runnable candidates eat the limit.",
+              needs="waited-on invocations in PENDING / RUNNING ahead of runnable ones, limit smaller than the candidate set.",
+              caught_by={"C09": "C09/graph/sqlite/misses-blocking"}, missed_by={}),
+ "C13c": dict(breaks=["C13"], summary="SQLiteTrigger.claim_trigger_run loses its BEGIN IMMEDIATE: two runners both see 'not claimed' and both launch.",
+              needs="two trigger loops whose SELECTs precede both INSERTs.",
+              caught_by={"C13": "C13/conc/sqlite/launched-twice/*"}, missed_by={}),
+ "C18c": dict(breaks=["C18"], summary="DistributedInvocation.from_parent: a force_new_workflow task called from inside a workflow of the same task type inherits the parent's workflow identity; parent and callee share deterministic values and records.",
+              needs="a task declared with force_new_workflow that calls itself (or is called from a workflow of its own type).",
+              caught_by={"C18": "C18/*/workflows-share-identity (40 % of the runs now declare force_new_workflow and let workflows call the task again from inside; before, no sub-workflow existed)"}, missed_by={"C18 (before)": "no run used force_new_workflow"}),
+})
+
 def main():
     suite = {}
     p = os.path.join(V, "seeded", "suite_results.json")
